@@ -173,6 +173,19 @@ def main(tier, seed, replay=None):
                                 ["observe"], ["jac"], ["ref", nb], ["ref", base]]
                     c["meta"]["neighbour"] = str(kind)
                     cases.append(c)
+    # the parallel flavour inside small thread pools (one task then computes several Jacobian columns in a row): three to seven
+    # nonlinear parameters, pools of 1 and 2 threads — whatever a task keeps between two columns must not show
+    for fam in ("exp3", "p5", "p7", "mix4a"):
+        for t in (1, 2):
+            for ctor in ("new_parallel", "mrhs_parallel"):
+                c = gen_problem(rng, family=fam, ctor=ctor, quant=None, scalar="f64", weights=["none", "pos"][t % 2])
+                lo_, hi_ = c["meta"]["range"]
+                a = [hx(v, "f64") for v in distinct_params(rng, c["meta"]["P"], lo_, hi_)]
+                b = [hx(v, "f64") for v in distinct_params(rng, c["meta"]["P"], lo_, hi_)]
+                c["threads"] = t
+                c["ops"] = [["observe"], ["jac"], ["set", a], ["observe"], ["jac"], ["jac"], ["set", b], ["jac"], ["set", a], ["observe"], ["jac"],
+                            ["ref", a], ["ref", b], ["ref", c["model"]["init"]]]
+                cases.append(c)
     nshape = len(cases)
     for i in range(n):
         cases.append(gen(rng, i))
